@@ -62,3 +62,19 @@ Example C02_examples :
   py_range 5 0 (-2) = Ok [5; 3; 1] /\ py_range 0 6 2 = Ok [0; 2; 4] /\
   chunks 4 2 [1; 2; 3; 4] = [[1; 2]; [3; 4]].
 Proof. vm_compute. repeat split; reflexivity. Qed.
+
+(* an operand that names a register directly -- whole register, single index, index set, slice with any step -- resolves
+   to bits of THAT register, each inside it; so does every bit of every operation whose operands name registers *)
+Theorem C02_resolved_operand_lies_inside_its_register cr q size_map is_q s bits s' n :
+  sget (qarg_name q) size_map = Some n ->
+  resolve_one cr q size_map is_q s = Ok (bits, s') ->
+  Forall (fun b => fst b = qarg_name q /\ 0 <= snd b < n) bits.
+Proof. exact (resolve_one_inside cr q size_map is_q s bits s' n). Qed.
+Print Assumptions C02_resolved_operand_lies_inside_its_register.
+
+Theorem C02_every_resolved_bit_lies_inside_a_register cr bits size_map is_q s out s' :
+  (forall q, In q bits -> sget (qarg_name q) size_map <> None) ->
+  get_op_bits cr bits size_map is_q s = Ok (out, s') ->
+  Forall (fun b => exists n, sget (fst b) size_map = Some n /\ 0 <= snd b < n) out.
+Proof. exact (get_op_bits_inside cr bits size_map is_q s out s'). Qed.
+Print Assumptions C02_every_resolved_bit_lies_inside_a_register.
